@@ -847,7 +847,7 @@ func compileOnlyUnit(id, scratch string, u *UnitSpec, res *unitResult, listed ma
 		if i := strings.Index(rj, ": PANIC: "); i > 0 {
 			name := rj[:i]
 			v := Violation{Case: u.Name + "/" + name, Msg: "the generator panicked instead of returning a diagnostic: " + firstLines(rj[i+2:], 2), Kind: "build", Site: "generate " + name}
-			key := "C02/generator-panics:" + name
+			key := id + "/generator-panics:" + name
 			if listed[key] {
 				v.Knowns = []string{key}
 			}
